@@ -101,7 +101,7 @@ theorem recvPrepare_gok {s : State} (now : Int) (m : Msg) (h : GInv W me s) (hm 
     obtain ⟨hw, hpos, hrest⟩ := hm
     rw [hph] at hrest hw
     simp only at hrest
-    obtain ⟨_, hr0, hrpos⟩ := hrest
+    obtain ⟨hr0, hrpos⟩ := hrest
     have hv : VoteEv W s.tbl m.round .prepare m.sender m.value := by
       refine ⟨hw, fun _ => ?_⟩
       by_cases h0 : m.round = 0
